@@ -922,6 +922,10 @@ impl SchemaVersion {
                 Err(error::Format::DeserializationError(
                     "check all is only supported in datalog v3.1+".to_string(),
                 ))
+            } else if self.contains_v3_3 {
+                Err(error::Format::DeserializationError(
+                    "maps, arrays, null, closures are only supported in datalog v3.3+".to_string(),
+                ))
             } else {
                 Ok(())
             }
@@ -1027,6 +1031,7 @@ fn contains_v3_3_op(expressions: &[Expression]) -> bool {
                     | Binary::LazyOr
                     | Binary::All
                     | Binary::Any
+                    | Binary::Get
                     | Binary::Ffi(_)
             ),
         })
@@ -1039,8 +1044,9 @@ fn contains_v3_3_predicate(predicate: &Predicate) -> bool {
 
 fn contains_v3_3_term(term: &Term) -> bool {
     match term {
-        Term::Null => true,
-        Term::Set(s) => s.contains(&Term::Null),
+        // null, arrays and maps were introduced by datalog 3.3, wherever they occur
+        Term::Null | Term::Array(_) | Term::Map(_) => true,
+        Term::Set(s) => s.iter().any(contains_v3_3_term),
         _ => false,
     }
 }
